@@ -492,6 +492,19 @@ def r9(ctx):
     nb = prog.body(P + "num_bytes_unread")
     t = " ".join(expr_str(e) for _, _, _, e in ret_sites(nb, ctx.sym(nb)))
     ctx.check(re.search(r"Sub\w*\(self\.end, self\.begin\)", t) is not None, "num_bytes_unread", "num_bytes_unread: end - begin (%s)" % t[:60], nb.where(line=nb.line))
+    # the buffer is sized in whole maximum-length link frames (292 bytes each, not 250-byte payloads), one per transport segment of
+    # the largest fragment, plus one byte: otherwise a maximum-size frame never fits and is never delivered
+    sz = prog.body("link::reader::read_buffer_size")
+    zs = ctx.sym(sz)
+    muls = [zs.rvalue_expr(st.rv) for b, si, st in sz.assigns() if st.rv["k"] in ("bin", "checked") and st.rv.get("op", "").startswith("Mul")]
+    ctx.check(len(muls) == 1 and mentions_call(muls[0], r"num_link_frames$") and (mentions_constdef(muls[0], r"MAX_LINK_FRAME_LENGTH$") or mentions_const(muls[0], 292)), "read_buffer_size:frames*292", "read buffer = num_link_frames(fragment) * MAX_LINK_FRAME_LENGTH (%s)" % [expr_str(m)[:60] for m in muls], sz.where(line=sz.line), bad_detail="the receive buffer is sized as %s: not a whole number of maximum-length (292-byte) link frames" % [expr_str(m)[:80] for m in muls])
+    nf = prog.body("link::reader::num_link_frames")
+    ns = ctx.sym(nf)
+    divs = [ns.rvalue_expr(st.rv) for b, si, st in nf.assigns() if st.rv["k"] in ("bin", "checked") and st.rv.get("op") in ("Div", "Rem")]
+    ctx.check(len(divs) >= 2 and all(mentions_constdef(d, r"MAX_APP_BYTES_PER_FRAME$") or mentions_const(d, 249) for d in divs), "num_link_frames:per-249", "one link frame per 249 application bytes (%s)" % [expr_str(d)[:40] for d in divs], nf.where(line=nf.line))
+    c1 = prog.const("link::constant::MAX_LINK_FRAME_LENGTH")
+    c2 = prog.const("link::constant::MAX_APP_BYTES_PER_FRAME")
+    ctx.check(c1.get("v") == 292 and c2.get("v") == 249, "link-frame-constants", "MAX_LINK_FRAME_LENGTH = %s, MAX_APP_BYTES_PER_FRAME = %s" % (c1.get("v"), c2.get("v")))
     # read_more_data: compaction only when full; what was read is appended
     rm = prog.abody("link::reader::Reader::read_more_data")
     rs = ctx.sym(rm)
